@@ -40,12 +40,84 @@ def bound(tier):
                 thorough_note="depth 4 over the 8 randomised/stateful operations" if tier != "quick" else "")
 
 
+HASHSEEDS = {"quick": ["0", "1", "2"], "thorough": ["0", "1", "2", "3", "4", "12345"]}
+
+
 def plan(tier, seed):
     items = []
     for kind in ("positive", "complex", "mixed"):
         for first in OPS:
             items.append(dict(kind=kind, first=first, tier=tier, vseed=seed))
+        items.append(dict(kind=kind, layer="fresh-process", tier=tier, vseed=seed))
+        items.append(dict(kind=kind, layer="repeat-on-same-inputs", tier=tier, vseed=seed))
     return items
+
+
+def run_fresh_process(acc, kind, tier, seeds=(5,)):
+    """The same seeded script in separate interpreters that differ only in PYTHONHASHSEED (what re-running a script
+    does): bit-identical parameters, samples, statistics and gradients."""
+    import json
+    import subprocess
+    import sys
+    for s in seeds:
+        outs = {}
+        for hs in HASHSEEDS[tier]:
+            env = dict(os.environ, PYTHONHASHSEED=hs)
+            r = subprocess.run([sys.executable, "-W", "ignore", "-m", "qmc.props._c14_child", kind, str(s)], cwd=HOME, env=env, capture_output=True, text=True)
+            line = [l for l in r.stdout.splitlines() if l.startswith("C14CHILD ")]
+            if r.returncode != 0 or not line:
+                raise EngineError("C14 child failed: " + (r.stderr or r.stdout)[-400:])
+            outs[hs] = json.loads(line[-1][9:])
+            acc.transitions += 1
+        acc.ev(1, nontrivial=True)
+        base = outs[HASHSEEDS[tier][0]]
+        names = ["initial parameters", "parameters after fit (5 bases in one batch)", "parameters after second fit", "samples", "statistics", "gradient", "exact gradient"]
+        diff = [(hs, names[next(i for i in range(len(base)) if o[i] != base[i])]) for hs, o in outs.items() if o != base]
+        if diff:
+            acc.viol("repro:same-seed-differs-between-interpreter-starts:" + diff[0][1].split(" ")[0], dict(kind=kind, layer="fresh-process", seed=s),
+                     detail=dict(differs=[list(d) for d in diff], hash_seeds=HASHSEEDS[tier]))
+        else:
+            acc.traces += 1
+        acc.outcome(sha(base))
+
+
+def run_repeat(acc, kind):
+    """seed; call; seed; the SAME call on the SAME caller-owned tensors: identical results, inputs untouched
+    (a start state passed without overwrite=True belongs to the caller)."""
+    L = lib()
+    O = L.observables
+    entries = [("sample", lambda st, x: st.sample(k=2, initial_state=x)),
+               ("Observable.statistics", lambda st, x: O.SigmaZ().statistics(st, num_samples=6, burn_in=1, steps=1, initial_state=x)),
+               ("Observable.statistics:uneven", lambda st, x: O.SigmaZ().statistics(st, num_samples=4, burn_in=1, steps=2, initial_state=x)),
+               ("System.statistics", lambda st, x: O.System(O.SigmaZ(), O.SigmaX()).statistics(st, num_samples=6, burn_in=1, steps=1, initial_state=x)),
+               ("Observable.sample", lambda st, x: O.SigmaX().sample(st, 2, initial_state=x)),
+               ("ObservableEvaluator", None)]
+    for name, f in entries:
+        case = dict(kind=kind, layer="repeat-on-same-inputs", entry=name)
+        acc.ev(1, nontrivial=True)
+        try:
+            L.qucumber.set_random_seed(3, cpu=True, gpu=False, quiet=True)
+            st = L.types[kind](2, gpu=False)
+            x = DATA.clone()
+            res = []
+            for rep in range(3):
+                L.qucumber.set_random_seed(11, cpu=True, gpu=False, quiet=True)
+                if f is None:
+                    ev = L.callbacks.ObservableEvaluator(1, [O.SigmaZ()], num_samples=6, burn_in=1, steps=1, initial_state=x)
+                    call(ev.on_epoch_end, st, 1)
+                    res.append(Hx(ev.last))
+                else:
+                    res.append(Hx(call(f, st, x)))
+                acc.transitions += 1
+            if not torch.equal(x, DATA):
+                acc.viol("repro:caller-owned-start-state-modified:" + name, case, observed=x.tolist(), expected=DATA.tolist())
+            elif len(set(res)) != 1:
+                acc.viol("repro:same-seeded-call-repeated-on-the-same-inputs-differs:" + name, case, observed=[str(r) for r in res])
+            else:
+                acc.traces += 1
+            acc.outcome(sha([name, res[0]]))
+        except LibRaised as e:
+            acc.viol(f"repro:raised:{e.kind}:{e.site}", case, observed=e.tb)
 
 
 def Hx(x):
@@ -210,8 +282,34 @@ def check_history(acc, kind, hist, seed, tmp, flagged):
     acc.outcome(sha(a[-1]))
 
 
+def reinit_after_seeding(acc, kind, flagged):
+    """seeding fixes everything that is drawn afterwards, whatever the model held before: a model built under some
+    other seed, then seeded and reinitialised, must come out the same"""
+    outs_ = []
+    for prior in (101, 202):
+        L_ = lib()
+        L_.qucumber.set_random_seed(prior, cpu=True, gpu=False, quiet=True)
+        st_ = L_.types[kind](2, gpu=False)
+        L_.qucumber.set_random_seed(9, cpu=True, gpu=False, quiet=True)
+        st_.reinitialize_parameters()
+        outs_.append(params(st_))
+        acc.transitions += 1
+    if outs_[0] != outs_[1] and "repro:reinitialisation-after-seeding-depends-on-earlier-state" not in flagged:
+        flagged.add("repro:reinitialisation-after-seeding-depends-on-earlier-state")
+        acc.viol("repro:reinitialisation-after-seeding-depends-on-earlier-state", dict(kind=kind, history=["construct(other seed)", "set_random_seed", "reinit"], seed=9))
+
+
 def run_item(item):
     acc = Acc()
+    if item.get("layer") == "fresh-process":
+        run_fresh_process(acc, item["kind"], item["tier"], seeds=(5,) if item["tier"] == "quick" else (5, item["vseed"] % 2 ** 32))
+        acc.states = acc.evaluations
+        acc.sample(dict(kind=item["kind"], layer="fresh-process", hash_seeds=HASHSEEDS[item["tier"]]), cap=1)
+        return acc
+    if item.get("layer") == "repeat-on-same-inputs":
+        run_repeat(acc, item["kind"])
+        acc.states = acc.evaluations
+        return acc
     kind, first, tier = item["kind"], item["first"], item["tier"]
     tmp = tempfile.mkdtemp(prefix="c14_", dir=os.path.join(HOME, ".work"))
     flagged = set()
@@ -249,18 +347,7 @@ def run_item(item):
         # seeding fixes everything that is drawn afterwards, whatever the model held before: a model built
         # under some other seed, then seeded and reinitialised, must come out the same
         if first == "reinit":
-            outs_ = []
-            for prior in (101, 202):
-                L_ = lib()
-                L_.qucumber.set_random_seed(prior, cpu=True, gpu=False, quiet=True)
-                st_ = L_.types[kind](2, gpu=False)
-                L_.qucumber.set_random_seed(9, cpu=True, gpu=False, quiet=True)
-                st_.reinitialize_parameters()
-                outs_.append(params(st_))
-                acc.transitions += 1
-            if outs_[0] != outs_[1] and "repro:reinitialisation-after-seeding-depends-on-earlier-state" not in flagged:
-                flagged.add("repro:reinitialisation-after-seeding-depends-on-earlier-state")
-                acc.viol("repro:reinitialisation-after-seeding-depends-on-earlier-state", dict(kind=kind, history=["construct(other seed)", "set_random_seed", "reinit"], seed=9))
+            reinit_after_seeding(acc, kind, flagged)
         third = OPS if tier == "quick" else OPS
         for b in OPS:
             for c in third:
@@ -279,6 +366,16 @@ def run_item(item):
 
 def replay(case):
     acc = Acc()
+    if case.get("layer") == "fresh-process":
+        run_fresh_process(acc, case["kind"], "thorough", seeds=(case["seed"],))
+        return acc
+    if case.get("layer") == "repeat-on-same-inputs":
+        run_repeat(acc, case["kind"])
+        return acc
+    if case.get("history") and case["history"][0] == "construct(other seed)":
+        acc.ev(1)
+        reinit_after_seeding(acc, case["kind"], set())
+        return acc
     tmp = tempfile.mkdtemp(prefix="c14_", dir=os.path.join(HOME, ".work"))
     try:
         if "form" in case:
